@@ -557,6 +557,132 @@ def zoo_cases(ctx, rng=None):
         yield c
     for c in hidden_cases(ctx, rng, mk):
         yield c
+    for c in minimal_cases(ctx, rng, mk):
+        yield c
+
+
+# strata of the generator that every run (both tiers) must hit
+EXPECTED_STRATA = ['diffop/min-axis-2', 'diffop/min-axis-3', 'minimal/matrix-1x1',
+                   'minimal/matrix-1xn', 'minimal/matrix-nx1', 'minimal/pspace-1-component',
+                   'minimal/resize-axis-1', 'minimal/resize-axis-2',
+                   'minimal/fourier-axis-2', 'minimal/wavelet-axis-2', 'minimal/sampling-1-point',
+                   'minimal/space-1-entry']
+
+
+def minimal_cases(ctx, rng, mk):
+    """smallest admissible sizes of the other operator families"""
+    odl = odl_()
+    import odl.trafos as tr
+    hit = ctx.hit
+    # matrices 1x1, 1xn, nx1 (real, complex, weighted)
+    for tag, r, c in (('1x1', 1, 1), ('1xn', 1, 3), ('nx1', 3, 1)):
+        hit('minimal/matrix-' + tag)
+        for dn, mkdom in (('none', lambda c: odl.rn(c)), ('const', lambda c: odl.rn(c, weighting=2.0)),
+                          ('array', lambda c: odl.rn(c, weighting=[2.0, 1.0, 4.0][:c])),
+                          ('cplx', lambda c: odl.cn(c))):
+            M = rand_mat(rng, r, c, dn == 'cplx')
+            dom = mkdom(c)
+            yield mk('MatrixOperator', 'minimal shape={} domw={}'.format(tag, dn),
+                     lambda M=M, dom=dom: odl.MatrixOperator(M, domain=dom), ('matrix', M, dom, None))
+    # spaces with a single entry
+    hit('minimal/space-1-entry')
+    for tag, S in (('rn1', odl.rn(1)), ('cn1/const', odl.cn(1, weighting=0.5)),
+                   ('discr1', odl.uniform_discr(0, 0.5, 1)), ('rn1x1', odl.rn((1, 1)))):
+        v = rand_el(rng, S, nz=True)
+        yield mk('MultiplyOperator', 'minimal space=' + tag, lambda v=v: odl.MultiplyOperator(v),
+                 ('multiply', S, S, v))
+        yield mk('InnerProductOperator', 'minimal space=' + tag,
+                 lambda v=v: odl.InnerProductOperator(v), ('inner', S, v))
+        yield mk('FlatteningOperator', 'minimal space=' + tag, lambda S=S: odl.FlatteningOperator(S),
+                 ('flatten', S, 'C'))
+        yield mk('RealPart', 'minimal space=' + tag, lambda S=S: odl.RealPart(S), ('realpart', S))
+        yield mk('ComplexEmbedding', 'minimal space=' + tag,
+                 lambda S=S: odl.ComplexEmbedding(S, 1 + 2j), ('cembed', S, 1 + 2j))
+    # product spaces with ONE component
+    hit('minimal/pspace-1-component')
+    X = odl.rn(2)
+    for wn, P in (('none', odl.ProductSpace(X, 1)), ('const', odl.ProductSpace(X, 1, weighting=2.0)),
+                  ('array', odl.ProductSpace(X, 1, weighting=[4.0]))):
+        G = rand_el(rng, P, nz=True)
+        yield mk('PointwiseInner', 'minimal d=1 pspace-w=' + wn,
+                 lambda P=P, G=G: odl.PointwiseInner(P, G), ('pwinner', P, X, G, None))
+        yield mk('PointwiseInner', 'minimal d=1 op-w=unit pspace-w=' + wn,
+                 lambda P=P, G=G: odl.PointwiseInner(P, G, weighting=1.0), ('pwinner', P, X, G, 1.0))
+        yield mk('PointwiseSum', 'minimal d=1 pspace-w=' + wn, lambda P=P: odl.PointwiseSum(P),
+                 ('pwinner', P, X, P.one(), None))
+        yield mk('ComponentProjection', 'minimal d=1 index=int pspace-w=' + wn,
+                 lambda P=P: odl.ComponentProjection(P, 0), ('proj', P, 0))
+        yield mk('ComponentProjection', 'minimal d=1 index=list pspace-w=' + wn,
+                 lambda P=P: odl.ComponentProjection(P, [0]), ('proj', P, [0]))
+        yield mk('ComponentProjectionAdjoint', 'minimal d=1 index=int pspace-w=' + wn,
+                 lambda P=P: odl.ComponentProjectionAdjoint(P, 0), ('projadj', P, 0))
+    lf = small_leaf(rng, X)
+    yield mk('ProductSpaceOperator', 'minimal 1x1 block',
+             lambda lf=lf: odl.ProductSpaceOperator([[lf[0]]]),
+             ('blocks', 'pso', odl.ProductSpace(X, 1), odl.ProductSpace(X, 1), [(0, 0, lf[1])]))
+    # sampling a single point / all points of a 1-entry space
+    hit('minimal/sampling-1-point')
+    for tag, S in (('discr1', odl.uniform_discr(0, 0.5, 1)), ('rn1/const', odl.rn(1, weighting=2.0)),
+                   ('discr2', odl.uniform_discr(0, 1, 2))):
+        for variant in ('point_eval', 'integrate'):
+            yield mk('SamplingOperator', 'minimal dom={} variant={}'.format(tag, variant),
+                     lambda S=S, variant=variant: odl.SamplingOperator(S, [0], variant),
+                     ('sampling', S, [0], variant))
+        for variant in ('char_fun', 'dirac'):
+            yield mk('WeightedSumSamplingOperator', 'minimal ran={} variant={}'.format(tag, variant),
+                     lambda S=S, variant=variant: odl.WeightedSumSamplingOperator(S, [0, 0], variant),
+                     ('wsum', S, [0, 0], variant))
+    # resizing from / to axes of length 1 and 2
+    from odl.util import numerics
+    modes = list(getattr(numerics, '_SUPPORTED_RESIZE_PAD_MODES',
+                         ('constant', 'symmetric', 'periodic', 'order0', 'order1')))
+    for n in (1, 2):
+        hit('minimal/resize-axis-{}'.format(n))
+        S = odl.uniform_discr(0, n * 0.5, n)
+        S2 = odl.uniform_discr([0, 0], [n * 0.5, 1.5], (n, 3))
+        for mode in modes:
+            for tag, dom, kw in (('extend', S, dict(ran_shp=(n + 1,))),
+                                 ('extend-both', S, dict(ran_shp=(n + 2,))),
+                                 ('shrink-to-1', S, dict(ran_shp=(1,))),
+                                 ('2d', S2, dict(ran_shp=(n + 1, 2)))):
+                if tag == 'shrink-to-1' and n == 1:
+                    continue
+                if n == 1 and tag != 'shrink-to-1' and mode in ('symmetric', 'order1'):
+                    # documented preconditions: symmetric padding needs pad length < size,
+                    # order1 needs at least 2 points
+                    continue
+                yield mk('ResizingOperator', 'minimal n={} {} mode={}'.format(n, tag, mode),
+                         lambda dom=dom, kw=kw, mode=mode: odl.ResizingOperator(dom, pad_mode=mode, **kw))
+                yield mk('ResizingOperatorAdjoint', 'minimal n={} {} mode={}'.format(n, tag, mode),
+                         lambda dom=dom, kw=kw, mode=mode:
+                         odl.ResizingOperator(dom, pad_mode=mode, **kw).adjoint)
+    # Fourier transforms on axes of length 1 and 2, wavelets on 2 points
+    # (a Fourier transform over an axis with ONE grid point cannot be constructed: the
+    # reciprocal grid needs two points - the classes do not admit it)
+    for n in (2,):
+        hit('minimal/fourier-axis-{}'.format(n))
+        dc = odl.uniform_discr(0, n, n, dtype='complex128')
+        dr = odl.uniform_discr(0, n, n)
+        d2 = odl.uniform_discr([0, 0], [n, 3], (n, 3), dtype='complex128')
+        for impl in ('numpy', 'pyfftw'):
+            yield mk('DiscreteFourierTransform', 'minimal n={} complex impl={}'.format(n, impl),
+                     lambda dc=dc, impl=impl: tr.DiscreteFourierTransform(dc, impl=impl), approx=True)
+            yield mk('DiscreteFourierTransform', 'minimal n={} real-halfcomplex impl={}'.format(n, impl),
+                     lambda dr=dr, impl=impl: tr.DiscreteFourierTransform(dr, impl=impl, halfcomplex=True),
+                     approx=True)
+            yield mk('DiscreteFourierTransform', 'minimal n={}x3 axes=0 impl={}'.format(n, impl),
+                     lambda d2=d2, impl=impl: tr.DiscreteFourierTransform(d2, axes=(0,), impl=impl),
+                     approx=True)
+            yield mk('FourierTransform', 'minimal n={} complex impl={}'.format(n, impl),
+                     lambda dc=dc, impl=impl: tr.FourierTransform(dc, impl=impl), approx=True)
+    hit('minimal/wavelet-axis-2')
+    w2 = odl.uniform_discr(0, 2, 2)
+    for pad in ('pywt_periodic', 'constant', 'symmetric'):
+        yield mk('WaveletTransform', 'minimal n=2 wavelet=haar pad={}'.format(pad),
+                 lambda pad=pad: tr.WaveletTransform(w2, 'haar', nlevels=1, pad_mode=pad), approx=True)
+        yield mk('WaveletTransformInverse', 'minimal n=2 wavelet=haar pad={}'.format(pad),
+                 lambda pad=pad: tr.WaveletTransform(w2, 'haar', nlevels=1, pad_mode=pad).inverse,
+                 approx=True)
 
 
 def sclass(s):
@@ -825,22 +951,52 @@ def diff_cases(ctx, rng, mk):
         spaces += [('1d/n3', odl.uniform_discr(0, 3, 3)), ('2d/3x3', odl.uniform_discr([0, 0], [3, 1.5], (3, 3))),
                    ('1d/n6', odl.uniform_discr(0, 3, 6)),
                    ('2d/bdry', odl.uniform_discr([0, 0], [2, 3], (3, 4), nodes_on_bdry=True))]
+    # smallest admissible axis lengths (2 and 3 points), alone, mixed with longer axes and at
+    # every axis position: boundary rows alias there (out[1] is out[-1] on two points)
+    spaces += [('min2/1d', odl.uniform_discr(0, 1, 2)), ('min2/2x4', odl.uniform_discr([0, 0], [1, 2], (2, 4))),
+               ('min2/4x2', odl.uniform_discr([0, 0], [2, 1], (4, 2))),
+               ('min3/1d', odl.uniform_discr(0, 1.5, 3)), ('min3/4x3', odl.uniform_discr([0, 0], [2, 1.5], (4, 3))),
+               ('min2/2x3', odl.uniform_discr([0, 0], [1, 1.5], (2, 3)))]
+    if not ctx.quick:
+        spaces += [('min2/2x2', odl.uniform_discr([0, 0], [1, 1], (2, 2))),
+                   ('min2/cplx', odl.uniform_discr(0, 1, 2, dtype='complex128')),
+                   ('min2/3x2x2', odl.uniform_discr([0, 0, 0], [1.5, 1, 1], (3, 2, 2))),
+                   ('min3/3x3x2', odl.uniform_discr([0, 0, 0], [1.5, 1.5, 1], (3, 3, 2)))]
     methods = list(diff_ops._SUPPORTED_DIFF_METHODS)
     pads = list(diff_ops._SUPPORTED_PAD_MODES)
+
+    def admits(S, pad, axes):
+        # 'order2' padding needs at least 3 points along a differentiated axis (documented)
+        return not (pad.startswith('order2') and any(S.shape[a] < 3 for a in axes))
+
+    def stratum(S, axes):
+        m = min(S.shape[a] for a in axes)
+        return 'diffop/min-axis-{}'.format(m) if m <= 3 else None
+
     for tag, S in spaces:
         for method in methods:
             for pad in pads:
                 for axis in range(S.ndim):
+                    if not admits(S, pad, [axis]):
+                        continue
+                    if stratum(S, [axis]):
+                        ctx.hit(stratum(S, [axis]))
                     yield mk('PartialDerivative', 'space={} axis={} method={} pad={}'.format(
                         tag, axis, method, pad),
                         lambda S=S, axis=axis, method=method, pad=pad:
                         odl.PartialDerivative(S, axis, method=method, pad_mode=pad))
+                if not admits(S, pad, range(S.ndim)):
+                    continue
+                if stratum(S, range(S.ndim)):
+                    ctx.hit(stratum(S, range(S.ndim)))
                 yield mk('Gradient', 'space={} method={} pad={}'.format(tag, method, pad),
                          lambda S=S, method=method, pad=pad: odl.Gradient(S, method=method, pad_mode=pad))
                 yield mk('Divergence', 'space={} method={} pad={}'.format(tag, method, pad),
                          lambda S=S, method=method, pad=pad: odl.Divergence(
                              range=S, method=method, pad_mode=pad))
         for pad in pads:
+            if not admits(S, pad, range(S.ndim)):
+                continue
             yield mk('Laplacian', 'space={} pad={}'.format(tag, pad),
                      lambda S=S, pad=pad: odl.Laplacian(S, pad_mode=pad))
     S = odl.uniform_discr([0, 0], [1.5, 2], (3, 4))
@@ -1777,8 +1933,9 @@ def run(ctx):
                 'flv', 'blocks/pso', 'blocks/bcast', 'blocks/red', 'blocks/diag', 'nonlin',
                 'opaque'}
     unhit = sorted(b for b in expected if 'model/' + b not in ctx.branches)
+    unhit += sorted(b for b in EXPECTED_STRATA if b not in ctx.branches)
     ctx.extra['unhit_model_branches'] = unhit
-    if unhit and not ctx.quick:
+    if unhit:
         ctx.disagree({'case': 'coverage'}, 'model branches never exercised: {}'.format(unhit),
                      'every constructor of the model must be tied in the thorough tier')
 
